@@ -45,18 +45,62 @@ def base_degree_fn(e):
     return base
 
 
-def admitted_guard(at, d):
-    """Absolute thresholds named by the property text: `prod > 1e-3` (share of production)
-    and `arearef < 1e-3`."""
-    cst = d.m.get((), 0)
-    others = [k for k in d.m if k != ()]
-    if cst != 0 and abs(cst) == Fraction(1, 1000) and len(others) >= 1:
+def make_admitted_guard(A, e):
+    """Absolute thresholds named by the property text (`why_tests_cant`: "1e-3 on production shares") and the
+    documented rejection of a null area: a comparison `x  <> 1e-3` is admitted only when x is the **per-step
+    production** of a carrier (a sum of per-step Σ over PRODUCCION lines, possibly gated by presence indicators) or
+    the reference area itself.  Any other quantity compared with a constant is an absolute threshold."""
+    from .c01 import gate_of, component_classes
+    from .c02 import _all_classes
+    area = e.params.get("arearef")
+    memo = {}
+
+    def production_atom(a):
+        r = memo.get(a.id)
+        if r is not None:
+            return r
+        r = False
+        t = a.term
+        if a.kind == "elt" and a.perstep and t is not None and t.op == "vsumover":
+            r = True
+            some = False
+            for cls_name, kind, _tag, _car, comp in _all_classes():
+                g = gate_of(t.a[0], comp)
+                if kind == "Prod":
+                    if g is tm.TRUE:
+                        some = True
+                    elif g is not tm.FALSE:
+                        r = False
+                elif g is not tm.FALSE:
+                    r = False
+            r = r and some
+        memo[a.id] = r
+        return r
+
+    def admitted(at, d):
+        cst = d.m.get((), 0)
+        others = [k for k in d.m if k != ()]
+        if cst == 0 or abs(cst) != Fraction(1, 1000) or not others:
+            return False
+        for mono in others:
+            kinds = [A.atoms[aid] for aid, _pw in mono]
+            if any(pw != 1 for _aid, pw in mono):
+                return False
+            main = [a for a in kinds if a.kind != "ind"]
+            if len(main) != 1:
+                return False
+            a = main[0]
+            if area is not None and a.kind == "term" and a.term is area and len(kinds) == 1:
+                continue
+            if production_atom(a):
+                continue
+            return False
         return True
-    return False
+    return admitted
 
 
 def analyse(ctx, lm):
     e = epmodel.ep(ctx, lm)
     A = alg.Algebra()
-    D = degree.DegreeAnalysis(A, base_degree_fn(e), admitted_guard)
+    D = degree.DegreeAnalysis(A, base_degree_fn(e), make_admitted_guard(A, e))
     return e, A, D
